@@ -14,6 +14,16 @@ Proof. vm_compute. reflexivity. Qed.
 Lemma arg_index_sites_owned : forallb (site_owned registrations) arg_index_sites = true.
 Proof. vm_compute. reflexivity. Qed.
 
+(* constant indexes into the other slices of builtins and router tests are under len guards that imply them *)
+Lemma local_index_sites_safe : forallb local_site_ok local_index_sites = true.
+Proof. vm_compute. reflexivity. Qed.
+
+Example local_guard_matters :
+  local_site_ok (Site "hasIntent:possibilities" 0 SIndex 0 [GCmp CGt 0]) = true /\
+  local_site_ok (Site "hasIntent:possibilities" 0 SIndex 0 []) = false /\
+  local_site_ok (Site "HasDistrict:districts" 0 SIndex 1 [GCmp CEq 1]) = false.
+Proof. vm_compute. repeat split; reflexivity. Qed.
+
 (* non-constant indexes occur only where the model has a proved loop *)
 Lemma dynamic_sites_covered : dynamic_ok dynamic_sites = true.
 Proof. vm_compute. reflexivity. Qed.
